@@ -59,9 +59,9 @@ SameAt(as, bs, n, f) ==
 
 SameRowInput(x, y) ==
   /\ x.act = y.act /\ x.af = y.af /\ x.sd = y.sd /\ x.td = y.td
-  /\ D(x.q) = D(y.q) /\ D(x.p) = D(y.p) /\ D(x.c) = D(y.c) /\ D(x.r) = D(y.r) /\ D(x.rc) = D(y.rc)
-  /\ x.hasSfl = y.hasSfl /\ D(x.sflv) = D(y.sflv) /\ x.force = y.force
-  /\ D(x.post) = D(y.post) /\ D(x.pre) = D(y.pre) /\ x.intOnly = y.intOnly
+  /\ REq(D(x.q), D(y.q)) /\ REq(D(x.p), D(y.p)) /\ REq(D(x.c), D(y.c)) /\ REq(D(x.r), D(y.r)) /\ REq(D(x.rc), D(y.rc))
+  /\ x.hasSfl = y.hasSfl /\ REq(D(x.sflv), D(y.sflv)) /\ x.force = y.force
+  /\ REq(D(x.post), D(y.post)) /\ REq(D(x.pre), D(y.pre)) /\ x.intOnly = y.intOnly
 
 DescribeDelta(x) == x.act \o " " \o x.af \o " (row " \o ToString(x.idx) \o ")"
 
@@ -83,8 +83,8 @@ JudgeSame(p) ==
 JudgeOpening(p) ==
   LET a == p.a  b == p.b IN
   Chk(/\ a.opening.has /\ ~b.opening.has /\ Len(b.rows) = Len(a.rows) + 1
-      /\ b.rows[1].act = "Buy" /\ b.rows[1].af = DefaultAf /\ D(b.rows[1].q) = D(a.opening.n)
-      /\ RIsZero(D(b.rows[1].p)) /\ D(b.rows[1].c) = D(a.opening.c) /\ D(b.rows[1].rc) = ROne
+      /\ b.rows[1].act = "Buy" /\ b.rows[1].af = DefaultAf /\ REq(D(b.rows[1].q), D(a.opening.n))
+      /\ RIsZero(D(b.rows[1].p)) /\ REq(D(b.rows[1].c), D(a.opening.c)) /\ REq(D(b.rows[1].rc), ROne)
       /\ \A n \in DOMAIN a.rows : b.rows[1].sd < a.rows[n].sd - 30 /\ b.rows[1].sd < a.rows[n].td - 30
       /\ \A n \in DOMAIN a.rows : SameRowInput(a.rows[n], b.rows[n + 1]),
       "harness", "b is not a with the opening position turned into a purchase",
@@ -105,9 +105,9 @@ BeforeSplit(ds) ==
   LET s == { n \in DOMAIN ds : ds[n].act = "Split" }
   IN  IF s = {} THEN Len(ds) ELSE (CHOOSE n \in s : \A j \in s : n <= j) - 1
 ScaledInput(x, y, f) ==       \* row y of b is row x of a restated by factor f
-  /\ x.act = y.act /\ x.af = y.af /\ x.sd = y.sd /\ D(x.c) = D(y.c) /\ D(x.r) = D(y.r) /\ D(x.rc) = D(y.rc)
-  /\ CASE x.act \in {"Buy", "Sell", "Sfla"} -> D(y.q) = RMul(D(x.q), f) /\ D(y.p) = RDiv(D(x.p), f)
-       [] x.act = "Roc" -> D(y.p) = RDiv(D(x.p), f)
+  /\ x.act = y.act /\ x.af = y.af /\ x.sd = y.sd /\ REq(D(x.c), D(y.c)) /\ REq(D(x.r), D(y.r)) /\ REq(D(x.rc), D(y.rc))
+  /\ CASE x.act \in {"Buy", "Sell", "Sfla"} -> REq(D(y.q), RMul(D(x.q), f)) /\ REq(D(y.p), RDiv(D(x.p), f))
+       [] x.act = "Roc" -> REq(D(y.p), RDiv(D(x.p), f))
        [] OTHER -> TRUE
 JudgeSplit(p) ==
   LET a == p.a  b == p.b
@@ -118,10 +118,10 @@ JudgeSplit(p) ==
       nb == BeforeSplit(b.deltas)
   IN
   Chk(/\ Len(br) = Len(a.rows) /\ Len(bs) >= 1
-      /\ \A n \in DOMAIN bs : D(bs[n].post) = D(p.post) /\ D(bs[n].pre) = D(p.pre) /\ ~bs[n].intOnly
+      /\ \A n \in DOMAIN bs : REq(D(bs[n].post), D(p.post)) /\ REq(D(bs[n].pre), D(p.pre)) /\ ~bs[n].intOnly
       /\ \A n \in DOMAIN a.rows : \A x \in {a.rows[n]} :
             LET y == br[n] IN IF n <= p.k THEN SameRowInput(x, y) ELSE ScaledInput(x, y, f)
-      /\ a.opening = b.opening,
+      /\ a.opening.has = b.opening.has /\ REq(D(a.opening.n), D(b.opening.n)) /\ REq(D(a.opening.c), D(b.opening.c)),
       "harness", "b is not a with a split inserted and later rows restated",
   Chk(a.status = "ok", "harness", "base history was rejected",
   Chk(b.status = "ok", "split", "history with the split ended " \o b.status \o ": " \o b.msg,
